@@ -273,6 +273,7 @@ Definition global_mixed_levels (w : sws) (n : list N) : bool :=
   | x :: r => existsb (fun y => negb ((s_flv (snd x) =? s_flv (snd y)) && (s_slv (snd x) =? s_slv (snd y)))) r
   end.
 
+(* FIXED class (fixes/C06-same-pos-other-file.diff): kept as vocabulary of the pre-fix refutation only *)
 Definition same_pos_other_file (w : sws) (n : list N) : bool :=
   let os := filter (fun x => binding_eqb (s_bind (snd x)) (BGlobal n)) (all_occs w) in
   existsb (fun x => existsb (fun y => negb (beq_bytes (fst x) (fst y)) && loc_eqb (s_loc (snd x)) (s_loc (snd y))) os) os.
